@@ -184,6 +184,16 @@ def run(F, rep):
                      % (nm_, sorted(w_), '; '.join(render(r['c'][0])[:50] for r in gs_[0].walk() if r.get('k') == 'Return' and r.get('c'))))
     if n_o < 2:
         raise AnalysisBroken('C17.O1: modelHasOdes/modelHasNlas vanished')
+    rep.rule('C17.K1', 'an analysed variable keeps its component alive: AnalyserVariableImpl has a strong reference (shared_ptr<Component>) that populate() sets to the owning component of the variable. '
+                       'The generator names the component of every variable through the variable\'s (weak) parent link; without the strong reference an AnalyserModel outlives the components it describes as soon as the user edits the model')
+    avr = F.record('AnalyserVariable::AnalyserVariableImpl')
+    keep = [x for x in avr['fields'] if 'std::shared_ptr<libcellml::Component>' in x['t']]
+    pop_ = [g for g in F.funcs.values() if g.name == 'populate' and 'AnalyserVariableImpl' in (g.cls or '')]
+    if not pop_:
+        raise AnalysisBroken('AnalyserVariableImpl::populate vanished')
+    sets_ = [a for a in pop_[0].walk() if ((a.get('k') == 'Call' and a.get('opc') == '=') or (a.get('k') == 'Bin' and a.get('op') == '=')) and a.get('c') and a['c'][0].get('k') == 'Member' and keep and a['c'][0].get('n') == keep[0]['n']
+             and any(x.get('k') == 'Call' and x.get('fn') in ('owningComponent', 'parent') for x in walk(a['c'][1]))]
+    rep.check(bool(keep) and bool(sets_), 'C17.K1', 'AnalyserVariableImpl|component kept alive', pop_[0].where(), 'AnalyserVariableImpl no longer holds the component of its variable (fields: %s)' % [x['n'] for x in avr['fields']], 'member %s set from the owning component' % (keep[0]['n'] if keep else ''))
     rep.rule('C17.M1', 'Generator::setModel / setProfile store what they are given, whatever it is: the assignment of the member is unconditional (setModel(nullptr) must clear the model, otherwise "no model -> empty code" is false for a reused generator)')
     for nm_, fld_ in (('setModel', 'mModel'), ('setProfile', 'mProfile')):
         g_ = F.fn1('libcellml::Generator::' + nm_)
